@@ -26,7 +26,7 @@ EXPLANATION = (
 )
 
 MANIFEST = {
-    "technique": "static analysis: flow-sensitive abstract interpretation of header key updates to polynomials over FITS keyword atoms, compared with the reflection algebra; determinant form; argument provenance (height), shared-state check",
+    "technique": "static analysis: flow-sensitive abstract interpretation of header key updates to polynomials over FITS keyword atoms, compared with the reflection algebra; determinant form and orientation; argument provenance (height) by parameter binding; shared-state check; representation consistency of Image under flip_parity",
     "text": "Decides the exact algebra of the WCS reflection, the parity-sign determinant and the ensure/flip control logic for Image and ImageDescription; with the linear-WCS model this is the claimed sky invariance for all linear WCS.",
     "note": "Trusted: astropy WCS.to_header emits CDELT/PC (+ CRPIX) for a linear celestial WCS and WCS(header) reads CD; FITS 1-based pixel convention. Not decided: non-linear distortion terms (outside the property).",
 }
@@ -38,7 +38,7 @@ def run(run):
     run.explanation = EXPLANATION
     run.assumptions += ["astropy: wcs.to_header() returns a fresh header in CDELT/PC form; WCS(header) honours CDi_j"]
     run.undecided_clauses += ["non-linear WCS terms (outside the property)"]
-    for r, n in (("C16.R1", 5), ("C16.R2", 3), ("C16.R3", 3), ("C16.R4", 1)):
+    for r, n in (("C16.R1", 5), ("C16.R2", 3), ("C16.R3", 3), ("C16.R4", 1), ("C16.R5", 3)):
         run.floor(r, n)
     project = run.project
     ev = sym.make_evaluator(project, IMG, [], inline_local=True)
